@@ -217,7 +217,7 @@ def histories(draw, force=None):
     specs = []
     for slot in range(n_slots):
         source = 'dict' if (slot == 0 and force in ('data', 'data-same-type')) else \
-            draw(st.sampled_from(['inline', 'inline', 'dict']))
+            draw(st.sampled_from(['inline', 'inline', 'dict', 'struct']))
         specs.append(draw(file_specs(slot_profile(source))))
     if force == 'dimension-unframed':
         # a channel that is in no frame (allowed outside high-compatibility mode), described by the user alone
@@ -536,7 +536,18 @@ class C14(Property):
                 b = built[k]
                 partial = bool(w.get('partial_data'))
                 try:
-                    data = B.make_source(net, b, ctx.scratch)
+                    # the caller passes the *same* data object again as long as the data of the specification have not
+                    # changed (anything the library did to it at an earlier write would show now)
+                    src_key = json.dumps([net['write'].get('source'), net['write'].get('opts'),
+                                          [[op.get('name'), op.get('dsname'), op.get('data')] for lf in net['lfs']
+                                           for op in lf['ops'] if op['t'] == 'channel']], sort_keys=True, default=str)
+                    cache = getattr(b, 'src_cache', None)
+                    if cache is not None and cache[0] == src_key and not partial and not isinstance(cache[1], dict):
+                        data = cache[1]
+                        labels.append('same-data-object-again')
+                    else:
+                        data = B.make_source(net, b, ctx.scratch)
+                        b.src_cache = (src_key, data)
                     if partial and isinstance(data, dict) and len(data) > 1:
                         data.pop(sorted(data)[-1])
                         net['write']['opts'] = {'drop_last': True}
